@@ -51,11 +51,42 @@ def _mono_mul(a: Mono, b: Mono) -> Mono:
     return tuple(sorted(((at, e) for at, e in d.items() if e != 0), key=repr))
 
 
+def _has_expandable(m: Mono) -> bool:
+    for at, e in m:
+        if isinstance(at, tuple) and at and at[0] == "sum" and e.denominator == 1 and e > 0:
+            return True
+    return False
+
+
+def _expand_mono(m: Mono, c: Fraction) -> Poly:
+    """A sum atom with a positive integer exponent is multiplied out: sqrt(S) * sqrt(S) is S, not an opaque atom."""
+    rest = []
+    factors = []
+    for at, e in m:
+        if isinstance(at, tuple) and at and at[0] == "sum" and e.denominator == 1 and e > 0:
+            factors.append(({mm: cc for mm, cc in at[1]}, int(e)))
+        else:
+            rest.append((at, e))
+    out: Poly = {tuple(rest): c}
+    for sp, k in factors:
+        for _ in range(k):
+            out = p_mul(out, sp)
+    return out
+
+
 def p_mul(a: Poly, b: Poly) -> Poly:
     out: Poly = {}
     for m1, c1 in a.items():
         for m2, c2 in b.items():
             m = _mono_mul(m1, m2)
+            if _has_expandable(m):
+                for m3, c3 in _expand_mono(m, c1 * c2).items():
+                    n = out.get(m3, Fraction(0)) + c3
+                    if n == 0:
+                        out.pop(m3, None)
+                    else:
+                        out[m3] = n
+                continue
             n = out.get(m, Fraction(0)) + c1 * c2
             if n == 0:
                 out.pop(m, None)
@@ -88,7 +119,10 @@ def p_pow(a: Poly, k: Fraction) -> Optional[Poly]:
                     return _atomize_pow(a, k)
             except ZeroDivisionError:
                 return None
-            return {tuple((at, e * k) for at, e in m): cc}
+            m2 = tuple((at, e * k) for at, e in m)
+            if _has_expandable(m2):
+                return _expand_mono(m2, cc)
+            return {m2: cc}
     return _atomize_pow(a, k)
 
 
